@@ -163,23 +163,38 @@ def parse_dump(path):
             yield parse_state(p)
 
 
+def _unescape(lab):
+    out = []
+    i = 0
+    n = len(lab)
+    while i < n:
+        c = lab[i]
+        if c == "\\" and i + 1 < n:
+            d = lab[i + 1]
+            out.append("\n" if d == "n" else d)
+            i += 2
+        else:
+            out.append(c)
+            i += 1
+    return "".join(out)
+
+
 def parse_dot(path):
     """Parse `tlc -dump dot,actionlabels` output.
     Returns (nodes: {id: state dict}, init_ids: set, edges: [(src, dst, label)])."""
     nodes, edges, inits = {}, [], set()
-    node_re = re.compile(r'^(-?\d+) \[label="(.*)"(,style = filled)?\];?$')
-    edge_re = re.compile(r'^(-?\d+) -> (-?\d+) \[label="(.*?)"')
+    node_re = re.compile(r'^(-?\d+) \[label="((?:[^"\\]|\\.)*)"(.*)$')
+    edge_re = re.compile(r'^(-?\d+) -> (-?\d+) \[label="((?:[^"\\]|\\.)*)"')
     for line in open(path):
         line = line.rstrip("\n")
         m = edge_re.match(line)
         if m:
-            edges.append((m.group(1), m.group(2), m.group(3)))
+            edges.append((m.group(1), m.group(2), _unescape(m.group(3))))
             continue
         m = node_re.match(line)
         if m:
-            lab = m.group(2).replace('\\n', '\n').replace('\\"', '"').replace('\\\\', '\\')
-            nodes[m.group(1)] = parse_state(lab)
-            if m.group(3):
+            nodes[m.group(1)] = parse_state(_unescape(m.group(2)))
+            if "style = filled" in m.group(3):
                 inits.add(m.group(1))
     return nodes, inits, edges
 
